@@ -268,16 +268,17 @@ func satisfiesTildeConstraint(version, constraint *Version, precision int) bool 
 }
 
 // normalizePartialVersion converts partial versions to full versions
-// e.g., "1.2" -> "1.2.0", "1" -> "1.0.0"
+// e.g., "1.2" -> "1.2.0", "1" -> "1.0.0"; a prerelease or build suffix is kept
 func normalizePartialVersion(version string) string {
-	parts := strings.Split(version, ".")
+	core, suffix := splitVersionSuffix(version)
+	parts := strings.Split(core, ".")
 
 	// Ensure we have exactly 3 parts
 	for len(parts) < 3 {
 		parts = append(parts, "0")
 	}
 
-	return strings.Join(parts[:3], ".")
+	return strings.Join(parts[:3], ".") + suffix
 }
 
 // countVersionComponents counts the number of version components in a string
@@ -286,5 +287,15 @@ func countVersionComponents(version string) int {
 	if version == "" {
 		return 0
 	}
-	return len(strings.Split(version, "."))
+	core, _ := splitVersionSuffix(version)
+	return len(strings.Split(core, "."))
+}
+
+// splitVersionSuffix separates MAJOR[.MINOR[.PATCH]] from a prerelease or
+// build suffix, whose identifiers may contain dots themselves
+func splitVersionSuffix(version string) (string, string) {
+	if i := strings.IndexAny(version, "-+"); i >= 0 {
+		return version[:i], version[i:]
+	}
+	return version, ""
 }
